@@ -1,6 +1,7 @@
 package props
 
 import (
+	"context"
 	"encoding/json"
 	"fmt"
 	"strings"
@@ -9,6 +10,7 @@ import (
 	bpmn "github.com/olive-io/bpmn/v2"
 	"github.com/olive-io/bpmn/v2/pkg/event"
 	"github.com/olive-io/bpmn/v2/pkg/logic"
+	"github.com/olive-io/bpmn/v2/model"
 
 	"verif/internal/drive"
 	"verif/internal/fw"
@@ -71,6 +73,20 @@ func c14Cases(tier string, seed uint64) []fw.Case {
 				}
 			}
 			rec(nil)
+		}
+	}
+	// model level: the start-event consumer of package model (parallel-multiple start events), sharded by the first event
+	mlen := 8
+	if tier == "thorough" {
+		mlen = 9
+	}
+	for d := 2; d <= 3; d++ {
+		for a := 0; a <= d; a++ {
+			for b := 0; b <= d; b++ {
+				c := c14Case{Level: "model", Kind: "parallel", Defs: d, MaxLen: mlen, Prefix: []int{a, b}}
+				c.Name = fmt.Sprintf("model/parallel/d%d/prefix%d%d", d, a, b)
+				cs = append(cs, fw.MkCase("model", &c))
+			}
 		}
 	}
 	// process level, two activations: a second token reaches the same catch event when the history says so
@@ -419,6 +435,148 @@ func c14Process2(c *c14Case, env *fw.Env, v *fw.V) {
 	}
 }
 
+// c14Recorder records every event a process is handed.
+type c14Recorder struct{ seen []event.IEvent }
+
+func (r *c14Recorder) ConsumeEvent(ev event.IEvent) (event.ConsumptionResult, error) {
+	r.seen = append(r.seen, ev)
+	return event.Consumed, nil
+}
+
+// c14Model: a process whose parallel-multiple start event has d signal definitions is run inside a model.Model;
+// the model's start-event consumer buffers the matching events per partially matched set and, when a set is
+// complete, replays the buffered events of THAT set to the process. Over every history: never more replayed sets than
+// the least-matched definition count, exactly k when every definition was matched exactly k times; a replay consists of exactly one earlier-delivered event
+// per other definition; no event is replayed twice; a non-matching event changes nothing.
+func c14Model(c *c14Case, v *fw.V) {
+	g := gen.NewGraph("c14m")
+	s := g.Add(gen.Start, "pmstart", "")
+	s.Par = true
+	for i := 0; i < c.Defs; i++ {
+		s.Events = append(s.Events, gen.EventDef{Type: "signal", Ref: fmt.Sprintf("s%d", i)})
+	}
+	t := g.Add(gen.Task, "t", "")
+	e := g.Add(gen.End, "end", "")
+	g.Connect(s, t, nil)
+	g.Connect(t, e, nil)
+	defs, _, err := step.Parse(g)
+	if err != nil {
+		v.Inconclusive("parse", "%v", err)
+		return
+	}
+	cls := fmt.Sprintf("model-parallel-defs=%d", c.Defs)
+	n := 0
+	run := func(hist []int) bool {
+		n++
+		ctx, cancel := context.WithCancel(context.Background())
+		defer cancel()
+		m, err := model.New(defs, model.WithContext(ctx))
+		if err != nil {
+			v.Violate("model-new-error", cls, "%v", err)
+			return false
+		}
+		if err := m.Run(ctx); err != nil {
+			v.Violate("model-run-error", cls, "%v", err)
+			return false
+		}
+		proc, found := m.FindProcessBy(func(p *bpmn.Process) bool { return true })
+		if !found {
+			v.Inconclusive("setup", "process not found")
+			return false
+		}
+		rec := &c14Recorder{}
+		proc.RegisterEventConsumer(rec)
+		kind := map[event.IEvent]int{}
+		replayed := map[event.IEvent]bool{}
+		counts := make([]int, c.Defs)
+		fired := 0
+		for i, k := range hist {
+			ev := c14Ev(k, c.Defs)
+			kind[ev] = k
+			before := len(rec.seen)
+			if _, err := m.ConsumeEvent(ev); err != nil {
+				v.Violate("model-consume-error", cls, "history %v step %d: %v", hist, i, err)
+				return false
+			}
+			got := rec.seen[before:]
+			var replay []event.IEvent
+			for _, x := range got {
+				if x != ev {
+					replay = append(replay, x)
+				}
+			}
+			if k < c.Defs {
+				counts[k]++
+			}
+			least, equal := counts[0], true
+			for _, x := range counts {
+				least = min(least, x)
+				equal = equal && x == counts[0]
+			}
+			if len(replay) > 0 {
+				fired++
+			}
+			if fired > least {
+				v.Violate("model-fired-too-often", cls, "history %v: after step %d the start-event consumer has replayed %d sets, the least-matched definition was matched %d times (counts %v)", hist, i, fired, least, counts)
+				return false
+			}
+			if equal && fired != counts[0] {
+				v.Violate("model-fired-count-mismatch", cls, "history %v: after step %d every definition has been matched exactly %d times but %d sets were replayed", hist, i, counts[0], fired)
+				return false
+			}
+			if len(replay) > 0 && k >= c.Defs {
+				v.Violate("model-nonmatching-effect", cls, "history %v: a non-matching event at step %d made the start-event consumer replay a set", hist, i)
+				return false
+			}
+			if len(replay) == 0 {
+				continue
+			}
+			per := map[int]int{}
+			for _, x := range replay {
+				kk, known := kind[x]
+				if !known || replayed[x] {
+					v.Violate("model-replay-wrong-event", cls, "history %v: at step %d an event was replayed that was never delivered or had been replayed before", hist, i)
+					return false
+				}
+				replayed[x] = true
+				per[kk]++
+			}
+			ok := len(replay) == c.Defs-1
+			for d := 0; d < c.Defs; d++ {
+				want := 1
+				if d == k {
+					want = 0
+				}
+				if per[d] != want {
+					ok = false
+				}
+			}
+			if !ok {
+				v.Violate("model-replay-set", cls, "history %v: the set completed at step %d (by event %d) was replayed as %v events per definition, expected exactly one buffered event of every other definition", hist, i, k, per)
+				return false
+			}
+		}
+		return true
+	}
+	var rec func(h []int) bool
+	rec = func(h []int) bool {
+		if len(h) > 0 && !run(h) {
+			return false
+		}
+		if len(h) == c.MaxLen {
+			return true
+		}
+		for e := 0; e <= c.Defs; e++ {
+			if !rec(append(append([]int(nil), h...), e)) {
+				return false
+			}
+		}
+		return true
+	}
+	rec(append([]int(nil), c.Prefix...))
+	v.Add("histories", n)
+}
+
 func init() {
 	fw.Register(&fw.Prop{
 		ID:    "C14",
@@ -430,7 +588,10 @@ func init() {
 				v.Inconclusive("descriptor", "%v", err)
 				return v
 			}
-			if cc.Level == "satisfier" {
+			if cc.Level == "model" {
+				c14Model(&cc, v)
+				v.Nontrivial = v.Stats["histories"] > 1
+			} else if cc.Level == "satisfier" {
 				c14Satisfier(&cc, v)
 				v.Nontrivial = v.Stats["histories"] > 1
 			} else if cc.Level == "process2" {
@@ -442,9 +603,9 @@ func init() {
 			}
 			return v
 		},
-		Rule:       "satisfier level: CatchEventSatisfier (parallel-multiple and plain) and ThrowEventSatisfier driven directly with ALL event histories up to length 7 (quick) / 9 (thorough) over 1..4 signal definitions plus one non-matching event, each history on fresh satisfiers, counters checked at every prefix (fired <= least-matched count, fired == k when all matched k times, non-matching events change no later result - checked against a twin fed with the stripped history); process level: a (parallel-)multiple intermediate catch event with 1..3 definitions, all histories up to length 4/5, downstream request counted at quiescent points; the same with two activations (a second token is sent to the same catch event at a point the history chooses, events also arrive while no token waits: they must not count for the later token; a firing releases every waiting token), all histories up to length 5/6; a case = one shard of the enumeration (non-trivial when it contains > 1 history); distinct = descriptor hash; evidence 'measured.histories' is the number of histories executed",
+		Rule:       "satisfier level: CatchEventSatisfier (parallel-multiple and plain) and ThrowEventSatisfier driven directly with ALL event histories up to length 7 (quick) / 9 (thorough) over 1..4 signal definitions plus one non-matching event, each history on fresh satisfiers, counters checked at every prefix (fired <= least-matched count, fired == k when all matched k times, non-matching events change no later result - checked against a twin fed with the stripped history); process level: a (parallel-)multiple intermediate catch event with 1..3 definitions, all histories up to length 4/5, downstream request counted at quiescent points; the same with two activations (a second token is sent to the same catch event at a point the history chooses, events also arrive while no token waits: they must not count for the later token; a firing releases every waiting token), all histories up to length 5/6; model level: a parallel-multiple start event (2..3 signal definitions) inside model.Model, all histories up to length 8 / 9: the start-event consumer never replays more sets than the least-matched definition was matched, exactly k when all were matched k times, and a completed set is replayed as one buffered event of every other definition, none twice; a case = one shard of the enumeration (non-trivial when it contains > 1 history); distinct = descriptor hash; evidence 'measured.histories' is the number of histories executed",
 		Exhaustive: func(string) bool { return true },
-		Assumptions: []string{"model/start_event_consumer.go is covered only through the satisfier it delegates to"},
+		Assumptions: []string{"the model-level oracle is the statement's counting rule plus: a completed set is replayed as one buffered event of every other definition, none twice"},
 		Batch:       4,
 	})
 }
